@@ -39,7 +39,9 @@ fn check_msgs(what: &str, msgs: &[Message], durable: (u64, u64), sent: &mut Vec<
 fn run(lone: bool, ops: &[Op]) -> Option<String> {
     let logger = Logger::root(Discard, o!());
     let store = if lone { MemStorage::new_with_conf_state((vec![1], vec![2])) } else { MemStorage::new_with_conf_state((vec![1, 2, 3], vec![])) };
-    let cfg = Config { id: 1, election_tick: 10, heartbeat_tick: 1, max_size_per_msg: 1 << 20, max_inflight_msgs: 16, ..Default::default() };
+    // configuration flavour, fixed per case: pre-vote on for every other length, own priority 0 or 5
+    let flavour = ops.len() as u64;
+    let cfg = Config { id: 1, election_tick: 10, heartbeat_tick: 1, max_size_per_msg: 1 << 20, max_inflight_msgs: 16, pre_vote: flavour % 2 == 0, priority: if flavour % 3 == 0 { 5 } else { 0 }, ..Default::default() };
     let mut n = RawNode::new(&cfg, store.clone(), &logger).unwrap();
     let mut durable: (u64, u64) = (0, 0);
     let mut cur_hs: (u64, u64) = (0, 0);                       // newest HardState handed to the application
@@ -53,7 +55,8 @@ fn run(lone: bool, ops: &[Op]) -> Option<String> {
                 Op::Propose => { let _ = guard!("propose", n.propose(vec![], vec![1, 2, 3])); }
                 Op::VoteReq(from, dt, pre) => {
                     let mut m = Message::default(); m.set_msg_type(if *pre { MessageType::MsgRequestPreVote } else { MessageType::MsgRequestVote });
-                    m.from = 2 + from % 2; m.to = 1; m.term = n.raft.term + dt; m.index = 1000; m.log_term = m.term;
+                    m.from = 2 + from % 2; m.to = 1; m.term = n.raft.term + dt;
+                    if dt % 2 == 0 { m.index = 1000; m.log_term = m.term; } else { m.index = n.raft.raft_log.last_index(); m.log_term = n.raft.raft_log.last_term(); m.priority = (*from % 2) as i64 * 9; }
                     let _ = guard!("step", n.step(m));
                 }
                 Op::Heartbeat(from, dt) => {
